@@ -68,7 +68,11 @@ Definition t_generated (it : item) (x : dev) : dev := x <| d_gen_count ::= Z.add
 Definition t_finish (it : item) (x : dev) : dev := x <| d_out := Some it |> <| d_part := None |>.
 Definition t_stop_use (nw : Z) (x : dev) : dev :=
   x <| d_inuse ::= Z.add (nw - match d_last_use x with Some t => t | None => nw end) |> <| d_last_use := None |>.
-Definition t_start_use (nw : Z) (x : dev) : dev := x <| d_last_use := Some nw |>.
+(** PartProcessor._finish_cycle: the device fields it changes (part -> output, utilisation clock stopped) *)
+Definition t_finish_proc (nw : Z) (it : item) (x : dev) : dev := t_stop_use nw (t_finish it x).
+(** PartProcessor._fail: the part in process is dropped; the utilisation clock stops at this instant
+    (in the code _shutdown does that a few lines later, at the same time) *)
+Definition t_fail_clear (nw : Z) (x : dev) : dev := t_stop_use nw (x <| d_part := None |>).
 Definition t_clear_out (x : dev) : dev := x <| d_out := None |>.
 Definition t_clear_part (x : dev) : dev := x <| d_part := None |>.
 Definition t_batch_single (rest : option item) (p : part) (x : dev) : dev := x <| d_part := rest |> <| d_out := Some (ISingle p) |>.
@@ -79,17 +83,23 @@ Definition t_batch_more (rest : option item) (b : part) (ps : list part) (x : de
 Definition t_reserved (o : option nat) (x : dev) : dev := x <| d_reserved := o |>.
 Definition t_waiting_res (b : bool) (x : dev) : dev := x <| d_waiting_res := b |>.
 Definition t_accept (nw : Z) (it : item) (x : dev) : dev := dev_set_wait nw false false (x <| d_part := Some it |>).
+(** a PartProcessor starts the utilisation clock when it takes a part (_try_move_part_to_output, reached
+    from _accept_part whenever the part was accepted: operational, output slot empty) *)
+Definition t_accept_proc (nw : Z) (it : item) (x : dev) : dev := (t_accept nw it x) <| d_last_use := Some nw |>.
 Definition t_accept_buffer (nw : Z) (it : item) (x : dev) : dev := (t_accept nw it x) <| d_level ::= Z.add (item_count it) |>.
 Definition t_accept_sink (nw : Z) (it : item) (x : dev) : dev :=
   let y := t_accept nw it x in
   dev_add_value nw 1 (item_value it) (y <| d_received ::= Z.add (item_count it) |> <| d_value_received ::= Z.add (item_value it) |>)
     <| d_collected ::= fun l => if d_collect x then l ++ [it] else l |>.
 Definition t_buf_store (nw : Z) (it : item) (x : dev) : dev := x <| d_buf ::= fun b => b ++ [(nw, it)] |> <| d_part := None |>.
-(** `self._level -= part_count; self._buffer.pop(0)`: the head cannot change while it is being offered
-    (hand-overs only append), so its count is re-read here *)
-Definition t_buf_pop (x : dev) : dev :=
+(** `self._level -= part_count; self._buffer.pop(0)` after a successful hand-over of the head.  The head
+    cannot change while it is being offered (hand-overs only append at the back), so it is re-read here,
+    together with the delay test that let it be offered. *)
+Definition t_buf_pop (nw : Z) (x : dev) : dev :=
   match d_buf x with
-  | (_, it) :: rest => x <| d_level ::= fun l => l - item_count it |> <| d_buf := rest |>
+  | (t0, it) :: rest =>
+    if 0 <? d_min_delay x - (nw - t0) then x
+    else x <| d_level ::= fun l => l - item_count it |> <| d_buf := rest |>
   | [] => x
   end.
 Definition t_supplied (nw v : Z) (x : dev) : dev :=
@@ -101,7 +111,11 @@ Definition t_shutdown (nw : Z) (x : dev) : dev :=
        <| d_last_restore := None |>
        <| d_inuse ::= Z.add (match d_last_use x with Some t => nw - t | None => 0 end) |>
        <| d_last_use := None |>).
-Definition t_restore (nw : Z) (x : dev) : dev := x <| d_shut := false |> <| d_last_restore := Some nw |>.
+(** restore_functionality's own fields: operational again, uptime clock restarted, and the utilisation
+    clock restarted when a part is in process (set at the end of the method in the code; nothing in between reads it) *)
+Definition t_restore (nw : Z) (x : dev) : dev :=
+  x <| d_shut := false |> <| d_last_restore := Some nw |>
+    <| d_last_use := match d_part x with Some _ => Some nw | None => d_last_use x end |>.
 Definition t_block (b : bool) (x : dev) : dev := x <| d_block := b |>.
 Definition t_budget (z : Z) (x : dev) : dev := x <| d_budget := Some z |>.
 
@@ -274,14 +288,13 @@ Definition finish_cycle (fuel : nat) (nw : Z) (w : fw) (d : Z) : fw :=
          | None, _ => failf w E_ASSERT
          | Some _, Some _ => failf w E_ASSERT
          | Some it, None =>
-           let w1 := sched_pass nw 0 (updd w d (t_finish it)) d in
+           let w1 := sched_pass nw 0 (updd w d (match d_kind x with KProcessor => t_finish_proc nw it | _ => t_finish it end)) d in
            match d_kind x with
            | KProcessor =>
              let y := getd w1 d in
-             let w2 := updd w1 d (t_stop_use nw) in
              let w3 := match d_reserved y with
-                       | Some _ => emitf w2 (FSched nw P_RELEASE d (AReleaseIfIdle d))
-                       | None => w2
+                       | Some _ => emitf w1 (FSched nw P_RELEASE d (AReleaseIfIdle d))
+                       | None => w1
                        end in
              let w4 := run_cbops nw d false false (-1) (d_on_finish y) w3 in
              match d_out (getd w4 d) with
@@ -387,6 +400,7 @@ Definition accept (fuel : nat) (nw : Z) (w : fw) (d : Z) (it : item) : fw :=
               let w' := updd w d (t_accept_buffer nw it1) in
               data w' L_LEVEL d [nw; d_level (getd w' d)]
             | KSink => updd w d (t_accept_sink nw it1)
+            | KProcessor => updd w d (t_accept_proc nw it1)
             | _ => updd w d (t_accept nw it1)
             end in
   let w3 := rec_part w2 L_RECEIVED d nw it1 in
@@ -407,9 +421,6 @@ Definition accept (fuel : nat) (nw : Z) (w : fw) (d : Z) (it : item) : fw :=
       | None => w4
       end
     | KBatcher => batcher_try_move nw w4 d
-    | KProcessor =>
-      if operational x && (match d_part x with Some _ => true | None => false end)
-      then sched_finish fuel nw (updd w4 d (t_start_use nw)) d else w4
     | _ =>
       if operational x && (match d_part x with Some _ => true | None => false end)
       then sched_finish fuel nw w4 d else w4
@@ -487,7 +498,7 @@ Fixpoint buffer_loop (n : nat) (fuel : nat) (nw : Z) (w : fw) (d : Z) : fw :=
       else
         let '(w1, ok) := try_downstream fuel nw w d it in
         if ok then
-          let w2 := updd w1 d t_buf_pop in
+          let w2 := updd w1 d (t_buf_pop nw) in
           buffer_loop n' fuel nw (data w2 L_LEVEL d [nw; d_level (getd w2 d)]) d
         else w1
     end
@@ -555,7 +566,7 @@ Definition fail (nw : Z) (w : fw) (d : Z) : fw :=
   let x := getd w d in
   if negb (is_processor x) then w else
   let lost := match d_part x with Some it => item_id it | None => -1 end in
-  let w1 := updd w d t_clear_part in
+  let w1 := updd w d (t_fail_clear nw) in
   let w2 := release_reserved nw w1 d in
   let w3 := data w2 L_FAILURE d [nw; lost] in
   shutdown nw true lost w3 d.
@@ -571,11 +582,7 @@ Definition restore (fuel : nat) (nw : Z) (w : fw) (d : Z) : fw :=
               | None, None => signal fuel nw true w1 d
               | None, Some _ => w1
               end in
-    let w3 := match d_part x with
-              | Some _ => updd w2 d (t_start_use nw)
-              | None => w2
-              end in
-    run_cbops nw d true false (-1) (d_on_restore x) w3.
+    run_cbops nw d true false (-1) (d_on_restore x) w2.
 
 (** ResourceManager._check_pending_requests with the processors' _reserve_resource_callback *)
 Fixpoint res_check (n : nat) (fuel : nat) (nw : Z) (i : nat) (w : fw) : fw :=
